@@ -96,20 +96,21 @@ theorem decCommitWrapper_enc (cm : Bytes) (h : cm.length = COMMIT_SIZE) (rest : 
 
 theorem decRangeProof_enc (p : RangeProof) (h : p.WF) (rest : Bytes) :
     decRangeProof (encRangeProof p ++ rest) = .ok (p, rest) := by
+  obtain ⟨plen, proof⟩ := p
   obtain ⟨h1, h2⟩ := h
-  have htake : p.proof.take p.plen = p.proof := by rw [h1, ← h2]; exact List.take_length
-  have hlen : p.proof.length < 2^64 := by rw [h2]; decide
-  have hmin : min p.proof.length MAX_PROOF_SIZE = MAX_PROOF_SIZE := by rw [h2]; decide
-  have hcap : MAX_PROOF_SIZE ≤ MAX_FIXED_READ := by decide
-  simp only [decRangeProof, encRangeProof, writeBytes, htake, List.append_assoc,
-    readU64_write _ hlen, hmin]
-  have := readFixed_write p.proof MAX_PROOF_SIZE h2 hcap rest
-  simp only [writeFixed] at this
-  rw [this]
-  cases p with
-  | mk plen proof =>
-    simp only at h1 h2
-    simp [h1, h2]
+  simp only at h1 h2
+  subst h1
+  have htake : proof.take MAX_PROOF_SIZE = proof := by rw [← h2]; exact List.take_length
+  have hlen : proof.length < 2^64 := by rw [h2]; unfold MAX_PROOF_SIZE; omega
+  have hmin : min proof.length MAX_PROOF_SIZE = MAX_PROOF_SIZE := by rw [h2]; exact Nat.min_self _
+  have hcap : MAX_PROOF_SIZE ≤ MAX_FIXED_READ := by unfold MAX_PROOF_SIZE MAX_FIXED_READ; omega
+  have hrf := readFixed_write proof MAX_PROOF_SIZE h2 hcap rest
+  simp only [writeFixed] at hrf
+  have hsub : MAX_PROOF_SIZE - proof.length = 0 := by omega
+  rw [decRangeProof, encRangeProof, writeBytes]
+  simp only [htake, List.append_assoc]
+  rw [readU64_write _ hlen]
+  simp only [hmin, hrf, hsub, List.replicate_zero, List.append_nil]
 
 theorem decOutput_enc (o : Output) (h : o.WF) (rest : Bytes) :
     decOutput (encOutput o ++ rest) = .ok (o, rest) := by
